@@ -602,7 +602,13 @@ func runCodec(seed uint64, n int, outDir string, replay string) {
 					o.Violate("codec-panic", fmt.Sprintf("panic: %v at %s", p, stackTop()))
 				}
 			}()
-			switch rc.Intn(10) {
+			switch rc.Intn(13) {
+			case 10:
+				codecBlock(o, rc, ans)
+			case 11:
+				codecPendingEtxs(o, rc, ans)
+			case 12:
+				codecTermini(o, rc, ans)
 			case 0, 1, 2, 3, 4:
 				codecTx(o, rc, ans)
 			case 5, 6:
